@@ -682,15 +682,21 @@ fn wide_only(g: &mut G, c: &Ctx, depth: usize) -> Value {
         0 => json!({"not": leaf(g, c)}),
         1 => json!({"not": {"enum": [g.pick(ENUM_VALUES), g.pick(ENUM_VALUES)]}}),
         2 => json!({"type": "string", "not": {"enum": [g.pick(ENUM_VALUES)]}}),
-        3 => json!({"anyOf": [schema(g, c, depth + 1), schema(g, c, depth + 1)]}),
+        3 => json!({"anyOf": not_both_null(schema(g, c, depth + 1), schema(g, c, depth + 1))}),
         4 => {
             let mut ts = vec!["string", "integer", "boolean", "null", "number", "array", "object"];
             g.shuffle(&mut ts);
             let k = 2 + g.below(3);
             json!({"type": ts[..k].to_vec()})
         }
-        5 => json!({"allOf": [schema(g, c, depth + 1), schema(g, c, depth + 1)]}),
-        6 => json!({"oneOf": [schema(g, c, depth + 1), schema(g, c, depth + 1)]}),
+        5 => {
+            // conjunctions of enum restrictions with structured types yield an
+            // enum-constrained newtype over a type without PartialEq (known
+            // finding KF-009): branches are objects or references here
+            let a = if !c.refs().is_empty() && g.chance(1, 3) { json!({"$ref": format!("{}{}", c.ref_prefix, g.pick(c.refs()))}) } else { object_schema(g, c, depth + 1) };
+            json!({"allOf": [a, object_schema(g, c, depth + 1)]})
+        }
+        6 => json!({"oneOf": not_both_null(schema(g, c, depth + 1), schema(g, c, depth + 1))}),
         _ => json!({"enum": [g.pick(ENUM_VALUES), g.range(0, 5), null]}),
     }
 }
@@ -1172,4 +1178,15 @@ pub fn doc_in_enforced(doc: &Value) -> bool {
     }
     let Some(stripped) = strip_not(doc) else { return false };
     doc_in_faithful(&stripped) && doc.get("definitions").map(only_enforced).unwrap_or(false)
+}
+
+/// Two `null` alternatives in one union make typify fail an assertion while
+/// rendering (known finding KF-008); avoided by construction.
+fn not_both_null(a: Value, b: Value) -> Vec<Value> {
+    if is_null_schema(&a) && is_null_schema(&b) {
+        super::excluded("union-of-two-nulls", 1);
+        vec![a, json!({"type": "boolean"})]
+    } else {
+        vec![a, b]
+    }
 }
